@@ -19,6 +19,12 @@
 //     of a tunnel on a shaped listener — take their tokens with FillThrottle, not
 //     FillThrottleLocked (shaped_copy_unlocked): no lock of the listener-wide
 //     bucket is held across a blocking read of one tunnel's connection;
+//   - connect() and handleConnectRequest leave no deadline armed on a connection:
+//     in source order per receiver, every SetDeadline / SetReadDeadline /
+//     SetWriteDeadline with a non-zero time is followed by calls with time.Time{}
+//     that clear both the read and the write side it armed
+//     (tunnel_conns_no_armed_deadline).  handleLoop's idle deadline on the client
+//     connection is not in these functions: it is the stated assumption;
 //   - connect(): which answers of the downstream proxy are taken as "tunnel
 //     established, no body": `res.StatusCode/100 == 2` (downstream_any_2xx) as
 //     opposed to a comparison with 200 / http.StatusOK.
@@ -276,6 +282,50 @@ func main() {
 		fail("trafficshape/conn.go: WriteTo and ReadFrom calling FillThrottle not found (%d)", seen)
 	}
 
+	// deadlines armed and not cleared inside connect / handleConnectRequest
+	noArmed := true
+	for _, fd := range []*ast.FuncDecl{cn, hc} {
+		armedR, armedW := map[string]bool{}, map[string]bool{}
+		ast.Inspect(fd.Body, func(n ast.Node) bool {
+			c, ok := n.(*ast.CallExpr)
+			if !ok {
+				return true
+			}
+			sel, ok := c.Fun.(*ast.SelectorExpr)
+			if !ok || len(c.Args) != 1 {
+				return true
+			}
+			name := sel.Sel.Name
+			if name != "SetDeadline" && name != "SetReadDeadline" && name != "SetWriteDeadline" {
+				return true
+			}
+			recv := "?"
+			if id, ok := sel.X.(*ast.Ident); ok {
+				recv = id.Name
+			}
+			zero := false
+			if cl, ok := c.Args[0].(*ast.CompositeLit); ok && len(cl.Elts) == 0 {
+				if ts, ok := cl.Type.(*ast.SelectorExpr); ok && isIdent(ts.X, "time") && ts.Sel.Name == "Time" {
+					zero = true
+				}
+			}
+			if name != "SetWriteDeadline" {
+				armedR[recv] = !zero
+			}
+			if name != "SetReadDeadline" {
+				armedW[recv] = !zero
+			}
+			return true
+		})
+		for _, m := range []map[string]bool{armedR, armedW} {
+			for _, v := range m {
+				if v {
+					noArmed = false
+				}
+			}
+		}
+	}
+
 	b := func(v bool) string {
 		if v {
 			return "true"
@@ -291,7 +341,8 @@ func main() {
 		"Definition connect_defers_cconn_close : bool := " + b(defersCconn) + ".\n" +
 		"Definition shaping_reset_before_connect : bool := " + b(resetBefore) + ".\n" +
 		"Definition dial_sets_linger : bool := " + b(setsLinger) + ".\n" +
-		"Definition shaped_copy_unlocked : bool := " + b(unlocked) + ".\n"
+		"Definition shaped_copy_unlocked : bool := " + b(unlocked) + ".\n" +
+		"Definition tunnel_conns_no_armed_deadline : bool := " + b(noArmed) + ".\n"
 	if err := os.WriteFile(filepath.Join(*out, "Gen_Ret.v"), []byte(src), 0o644); err != nil {
 		fail("%v", err)
 	}
